@@ -9,6 +9,9 @@ CONSTANTS
   MaxGap = 6
   Modes = {"load"}
   TrackBoundary = FALSE
+  Styles = {}
+  MaxTok = 1
+  Directives = FALSE
   Variant = "code"
 INVARIANT TypeOK
 INVARIANT H_Bound
